@@ -18,7 +18,20 @@ Theorem C16_fuel_never_decides : forall fmtname md wd main src bs d,
   assoc main (w_fs wd) = Some src -> PathClean.clean main = main -> (nesting_fuel wd <= d)%nat ->
   compile d fmtname md wd main bs = compile (nesting_fuel wd) fmtname md wd main bs.
 Proof. exact compile_fuel_independent. Qed.
+(* The expansion budget: at every moment of every run -- any document, any nesting of calls and includes -- the
+   number of user-macro expansions counted since the top-level invocation is at most 10000; and a call made when
+   the budget is used up does not run the body at all: it only sets the exhausted flag and logs (once) the diagnostic.
+   Together with the nesting bound: the bodies run for one top-level line are at most 10000, whatever the fan-out. *)
+Theorem C16_expansions_within_budget : forall d bs c s,
+  (xcount c <= max_macro_expansions)%nat -> (xcount (fst (run_blocks d bs (c, s))) <= max_macro_expansions)%nat.
+Proof. exact run_blocks_budget. Qed.
+Theorem C16_call_beyond_budget_is_refused : forall pb m n l c s, (cdepth c <= 42)%nat -> (max_macro_expansions <= xcount c)%nat ->
+  user_macro pb m n l (c, s) =
+  (set_budget (xcount c) true c, if process s && negb (xexh c) then err "recursive macro: too many expansions" s else s).
+Proof. exact user_macro_refused. Qed.
 Print Assumptions C16_nesting_bounded.
+Print Assumptions C16_expansions_within_budget.
+Print Assumptions C16_call_beyond_budget_is_refused.
 Print Assumptions C16_fuel_never_decides.
 Definition run_with (f : string) (src : string) (extra : list (string * string)) : st :=
   compile_source (runes f) 0 (world_of (runes src) (map (fun p => (runes (fst p), runes (snd p))) extra) [] false) main_path.
